@@ -618,6 +618,14 @@ func (e *Engine) opExchange(c *cursor) *Violation {
 			op.Rel = resRel
 			op.HasTgt = true
 			op.Target = e.pickTarget(c, me, true)
+		} else if c.n(100) < 50 {
+			// builder configured WithRelation but used without a target: the relation setting must be ignored,
+			// in particular an existing target stays as it is
+			rels, _ := e.relTypes()
+			if len(rels) > 0 {
+				op.Rel = rels[c.n(len(rels))]
+				e.St.Probes["builder-with-relation-no-target"]++
+			}
 		}
 	}
 	if op.Variant == "Assign" && len(op.Add) == 0 {
@@ -969,6 +977,11 @@ func (e *Engine) opRead(c *cursor) *Violation {
 
 func (e *Engine) opReset(c *cursor) *Violation {
 	op := &COp{Kind: "reset", Variant: "Reset", Rel: -1}
+	if !e.locked() {
+		if v := e.checkPendingDump(); v != nil {
+			return v
+		}
+	}
 	_, ok, v := e.issue(op, "")
 	if v != nil || !ok {
 		return v
@@ -1022,6 +1035,18 @@ func (e *Engine) opRes(c *cursor) *Violation {
 	op.Illegal = why
 	e.valSeq++
 	op.K = int(e.valSeq)
+	if op.Res < nStaticRes {
+		op.K2 = c.n(3) // 0: ID-based, 1: generic.Resource, 2: AddResource/GetResource
+		if op.K2 > 0 {
+			e.St.Probes["resource-generic-path"]++
+		}
+	}
+	if !e.S.ResReg[op.Res] {
+		e.St.Probes["resource-type-registered-late"]++
+		if e.locked() {
+			e.St.Probes["resource-type-registered-while-locked"]++
+		}
+	}
 	res, ok, v := e.issue(op, why)
 	if v != nil {
 		if v.Class == "unexpected-panic" || v.Class == "no-panic" {
